@@ -3,6 +3,7 @@ package tgen
 import (
 	"encoding/json"
 	"fmt"
+	"github.com/a-h/templ"
 	"regexp"
 	"sort"
 	"strings"
@@ -122,7 +123,7 @@ type (
 	BoolExprAttr  struct{ Name, Cond string }
 	ExprAttr      struct{ Name, ID string }
 	SpreadAttr    struct{ ID string }
-	CSSClassAttr  struct{ Extra string }    // class={ "Extra", cssCls() } — a css template of the library
+	CSSClassAttr  struct{ Extra string } // class={ "Extra", cssCls() } — a css template of the library
 	// ClassExprAttr is class={ item, item, ... } over the container forms templ accepts. The class names are
 	// "k0".."k2" (constants and the valuation-dependent a.K(id)), so that names collide under some valuations.
 	ClassExprAttr struct{ Items []ClassItem }
@@ -755,14 +756,31 @@ func (ip *Interp) attrs(as []Attr) (kv [][2]string, bools map[int]bool) {
 				}
 				sort.Strings(keys)
 				for _, k := range keys {
-					switch v := m[k].(type) {
-					case string:
-						kv = append(kv, [2]string{k, v})
-					case bool:
-						if v {
+					flag := func(on bool) {
+						if on {
 							bools[len(kv)] = true
 							kv = append(kv, [2]string{k, ""})
 						}
+					}
+					switch v := m[k].(type) {
+					case string:
+						kv = append(kv, [2]string{k, v})
+					case *string:
+						if v != nil {
+							kv = append(kv, [2]string{k, *v})
+						}
+					case bool:
+						flag(v)
+					case *bool:
+						flag(v != nil && *v)
+					case templ.KeyValue[string, bool]:
+						if v.Value {
+							kv = append(kv, [2]string{k, v.Key})
+						}
+					case templ.KeyValue[bool, bool]:
+						flag(v.Key && v.Value)
+					case func() bool:
+						flag(v())
 					}
 				}
 			case CondAttr:
